@@ -361,3 +361,19 @@ package ext
 //@   ghostset after Is#0: heNeedMore = result
 //@   top-ensures heNeedMore && err == nil ==> r == errNeedMore
 //@   top-ensures r != nil
+
+// C04/C11 (a body of announced length): what is copied to the wire is the stream clamped to the announced size by a
+// limiter created here with exactly that size - whatever the stream's own type or limit is - so no byte beyond the
+// announced Content-Length can follow the header.
+//@ ghost var wfLim int
+//@ ghost var wfSet bool
+//@ func WriteBodyFixedSize(w, r, size) err
+//@   props C04, C11
+//@   abstract
+//@   noinline
+//@   modifies wfLim, wfSet
+//@   ghostset-at-entry wfSet = false
+//@   assert before LimitReader: arg0 == r && arg1 == size
+//@   ghostset after LimitReader: wfLim = result
+//@   ghostset after LimitReader: wfSet = true
+//@   assert before CopyZeroAlloc: arg0 == w && (size > 0 ==> wfSet && arg1 == wfLim)
